@@ -109,6 +109,18 @@ pub fn search(seed: u64, n: u64) {
             check_pair(&mut stats, &mut rng, &a, &b, &format!("corpus.{}.{}", name, VARIANTS[v]), 300, 300);
         }
     }
+    // operands enclosed by only one or two curve sections (teardrop, two-arc lens) against ordinary shapes, in both operand positions: a
+    // stream of its own, so that the pairs below stay what they were before these shapes existed
+    let mut rng_few = Rng(seed ^ 0xFE3);
+    for k in 0..(6 + n / 20) {
+        let few = vec![few_section_shape(&mut rng_few)];
+        let other = vec![rand_shape(&mut rng_few).path];
+        let (a, b) = if k % 2 == 0 { (few, other) } else { (other, few) };
+        stats.count("pair.with_few_section_shape");
+        stats.case(&format!("few_section A={:?} B={:?}", a, b), true);
+        let class = format!("few_section_shape{}", near_contact_suffix(&[&a, &b]));
+        check_pair(&mut stats, &mut rng_few, &a, &b, &class, 150, 150);
+    }
     for _ in 0..n {
         let pair = gen_pair(&mut rng);
         count_pair(&mut stats, &pair);
